@@ -3,6 +3,7 @@ package main
 import (
 	"context"
 	"net/http"
+	"sync/atomic"
 
 	"github.com/gorilla/websocket"
 	log "github.com/sirupsen/logrus"
@@ -39,8 +40,13 @@ func (wsfe *websocketFrontend) ServeHTTP(w http.ResponseWriter, r *http.Request)
 	log.Info("Websocket connected")
 
 	cancelObservation := func() {}
-	alive := true
-	for alive {
+	// alive is cleared from the engine's goroutine (onclose) and read here.
+	var alive atomic.Bool
+	alive.Store(true)
+	// Replacing the observation cancels the previous one; only the end of
+	// the current observation may end the connection.
+	var current atomic.Int64
+	for alive.Load() {
 		msgtype, p, err := conn.ReadMessage()
 		if err != nil {
 			log.Errorf("Error reading websocket: %s", err)
@@ -57,6 +63,7 @@ func (wsfe *websocketFrontend) ServeHTTP(w http.ResponseWriter, r *http.Request)
 				continue
 			}
 
+			id := current.Add(1)
 			cancelObservation()
 			cancelObservation = wsfe.engine.Observe(
 				expr,
@@ -67,7 +74,9 @@ func (wsfe *websocketFrontend) ServeHTTP(w http.ResponseWriter, r *http.Request)
 					)
 				},
 				func(err error) {
-					alive = false
+					if current.Load() == id {
+						alive.Store(false)
+					}
 				},
 			)
 		}
